@@ -2,7 +2,9 @@
 + handles.hpp): generator and implementation-side monitors (C01, C08; also used by C02, C15, C20).
 
 cfg = [flavour, mutexkind, enabled, init, payloadkind, throw_k...]; op encoding: see harness/wrapper_drv.cpp.
-payloadkind 0 = instrumented vs::WPay (every access is a window), 1 = plain long (accesses invisible).
+payloadkind 0 = instrumented vs::WPay (every access is a window), 1 = plain long (accesses invisible),
+2 = vs::TPay, trivially copyable with a non-bitwise operator== (accesses invisible; plain for the model).
+Assign takes an optional third value: 1 = assign from the caller's lvalue.  Modify's functor shape is (fid / 2) % 3.
 The generator appends explicit Destroy ops for the handles a thread still has at the end of its program
 (the driver / model do not destroy leftovers on the client thread); a small share of cases leaves one alive.
 """
@@ -166,10 +168,12 @@ def _gen_prog(rng, cfg, counter_only, edge, handle_share=55):
 
     def whole_op():
         c = rng.pick(whole)
-        if c in (STORE, ASSIGN, EXCHANGE):
+        if c == ASSIGN:
+            ops.append([c, rng.range(0, 5), rng.below(2)])     # from an rvalue / from the caller's lvalue
+        elif c in (STORE, EXCHANGE):
             ops.append([c, rng.range(0, 5)])
         elif c in (MODIFY, READ):
-            ops.append([c, rng.range(1, 8)])
+            ops.append([c, rng.range(1, 12)])                  # all functor shapes, void / value-returning
         elif c == CAS:
             ops.append([c, rng.range(0, 5), rng.range(0, 5)])
         else:
@@ -297,7 +301,7 @@ def gen(rng, tier, spec):
     else:
         en = 1 if rng.chance(3, 4) else 0
     init = rng.range(0, 5)
-    pk = 1 if rng.chance(1, 5) else 0     # plain `long` payload in ~20 % of the cases
+    pk = rng.weighted([(14, 0), (3, 1), (3, 2)])     # plain long / trivially copyable struct in ~15 % of the cases each
     cfg = [fl, mk, en, init, pk]
     edge = rng.chance(1, 6)
     counter_only = rng.chance(2, 5) and pid not in ('C15', 'C20')
@@ -778,6 +782,44 @@ def mon_unexpected_exception(case, lines):
     return None
 
 
+def mon_writer_lock_mode(case, lines):
+    """(C01 / C02) an operation that may modify the object (lock, try_lock*, store, operator=, modify, exchange,
+    compare_exchange, ...) took the mutex in shared mode"""
+    cfg = case['cfg']
+    if not locking(cfg):
+        return None
+    for o in _ops(case, lines):
+        code = o['op'][0]
+        if (code in ACQ_X or code in (STORE, ASSIGN, MODIFY, EXCHANGE, CAS, CAST)) and available(cfg, code):
+            for (i, k, _, v) in o['events']:
+                if k in SH_KINDS:
+                    return 'thread %d: %s took the mutex in shared mode (event kind %d, trace line %d)' % (o['t'], o['op'], k, i)
+    return None
+
+
+def mon_assign_steals_source(case, lines):
+    """(C15) `wrapper = lvalue;` left the caller's object moved-from (the driver logs K_FAULT 0 8)"""
+    for i, l in enumerate(lines):
+        if len(l) == 5 and l[1] == K['FAULT'] and l[3] == 8:
+            return 'thread %d: assignment from an lvalue stole the source object (trace line %d)' % (l[0], i)
+    return None
+
+
+def mon_cas_truth(case, lines):
+    """(C15) compare_exchange succeeds exactly when the current value equals the expected one: a failing CAS
+    reports the current value through `expected`, so failure with expected_out == expected (or success with
+    expected_out != expected) is impossible"""
+    cfg = case['cfg']
+    for o in _ops(case, lines):
+        if o['op'][0] == CAS and available(cfg, CAS) and o['ret'] is not None and len(o['op']) >= 3:
+            ok, out = o['ret'] & 1, o['ret'] >> 1
+            e = o['op'][1]
+            if (ok == 0 and out == e) or (ok == 1 and out != e):
+                return 'thread %d: compare_exchange(expected=%d, desired=%d) returned %s with expected=%d afterwards (trace line %d)' % (
+                    o['t'], e, o['op'][2], 'true' if ok else 'false', out, o['at'])
+    return None
+
+
 MONITORS = {
     'window_fault': mon_window_fault, 'lost_update': mon_lost_update, 'handle_truth': mon_handle_truth,
     'try_blocks': mon_try_blocks, 'release_balance': mon_release_balance, 'deadlock': mon_deadlock,
@@ -785,4 +827,5 @@ MONITORS = {
     'rw_overlap': mon_rw_overlap, 'reader_blocked': mon_reader_blocked,
     'linearizable': mon_linearizable, 'torn_load': mon_torn_load,
     'whole_object_op_unlocked': mon_whole_object_op_unlocked, 'unexpected_exception': mon_unexpected_exception,
+    'writer_lock_mode': mon_writer_lock_mode, 'assign_steals_source': mon_assign_steals_source, 'cas_truth': mon_cas_truth,
 }
